@@ -30,7 +30,7 @@ def do_import():
         pid = d.split('/')[3]
         for k in (1, 2):
             p = os.path.join(d, 'patch%d.diff' % k)
-            if not os.path.exists(p):
+            if not os.path.exists(p) or not os.path.exists(os.path.join(d, 'demo%d.py' % k)) or not os.path.exists(os.path.join(d, 'meta%d.json' % k)):
                 continue
             dst = os.path.join(SEEDED, '%sm%d' % (pid, k + int(os.environ.get('MUT_OFFSET', '0'))))
             os.makedirs(dst, exist_ok=True)
